@@ -81,6 +81,21 @@ WORKSPACES = {
             "  subroutine luse(x)\n    type(leaf_t) :: x\n    x%old_w = 1\n    x%weight = 2.0\n    x%tag = x%mid_c + x%leaf_c\n  end subroutine luse\nend module leaf_m\n",
         ],
     },
+    # a module moves from one file to another (the states in which both files define it are not compared: unique
+    # top-level names are the statement's precondition)
+    "W6_move": {
+        "m1.f90": [
+            "module mv\n  implicit none\n  integer :: mv_var\nend module mv\n",
+            "module m1_other\n  implicit none\n  integer :: o1\nend module m1_other\n",
+        ],
+        "m2.f90": [
+            "module m2_other\n  implicit none\n  integer :: o2\nend module m2_other\n",
+            "module mv\n  implicit none\n  integer :: mv_var\n  integer :: mv_new\nend module mv\n",
+        ],
+        "user.f90": [
+            "program pu\n  use mv\n  implicit none\n  mv_var = 1\nend program pu\n",
+        ],
+    },
     "W4_preproc": {
         "pp.F90": [
             "program pp\n#define LOCAL_PP_ONLY 1\n#ifdef LOCAL_PP_ONLY\n  integer :: seen_local\n#endif\n#include \"hh.h\"\n#ifdef FROM_HH\n  integer :: seen_hh\n#endif\n  include 'decl.f90'\n  from_decl = 1\nend program pp\n",
@@ -97,7 +112,25 @@ WORKSPACES = {
         ],
     },
 }
-QUERY = {"W5_chain3": ("leaf.f90", 9, 6), "W1_types": ("u.f90", 4, 4), "W2_procs": ("b.f90", 9, 10), "W3_inherit": ("c.f90", 10, 9), "W4_preproc": ("pp.F90", 10, 4)}
+QUERY = {"W6_move": ("user.f90", 3, 4), "W5_chain3": ("leaf.f90", 9, 6), "W1_types": ("u.f90", 4, 4), "W2_procs": ("b.f90", 9, 10), "W3_inherit": ("c.f90", 10, 9), "W4_preproc": ("pp.F90", 10, 4)}
+
+
+def admissible(ws, disk):
+    """The statement's precondition: no two files on disk define the same top-level unit."""
+    import re as _re
+
+    seen = set()
+    for f, v in disk.items():
+        if v is None or WORKSPACES[ws][f][v] is None:
+            continue
+        for m in _re.finditer(r"^\s*(?:module|program|submodule\s*\([^)]*\))\s+(\w+)", WORKSPACES[ws][f][v], _re.M | _re.I):
+            n = m.group(1).lower()
+            if n in ("procedure",):
+                continue
+            if n in seen:
+                return False
+            seen.add(n)
+    return True
 
 
 def single_line_edit(a: str, b: str):
@@ -118,6 +151,10 @@ def single_line_edit(a: str, b: str):
     while q < min(len(x), len(y)) - p and x[len(x) - 1 - q] == y[len(y) - 1 - q]:
         q += 1
     return {"range": {"start": {"line": i, "character": p}, "end": {"line": i, "character": len(x) - q}}, "text": y[p:len(y) - q]}
+
+
+# moving a unit between two files takes open + change + save on both: one event more than the common depth
+DEPTH_BONUS = {"W6_move": 1}
 
 
 def initial_disk(ws):
@@ -279,7 +316,10 @@ def expand(job, acc: Acc):
         s, m = build(ws, h2, root, fake_pool)
         acc.count("transitions")
         nontriv = None
-        if m.quiescent():
+        if m.quiescent() and not admissible(ws, m.disk):
+            acc.count("quiescent_states_with_duplicate_units_not_compared")
+            state_dg, _ = server_state(s.srv, root)
+        elif m.quiescent():
             acc.count("quiescent_states_checked")
             files = {f: WORKSPACES[ws][f][v] for f, v in m.disk.items() if v is not None and not f.endswith(".h")}
             # the long-lived server is queried through a clone of its state? no: states are rebuilt for every
@@ -352,8 +392,9 @@ def main(ctx):
     for ws in WORKSPACES:
         if ctx.only and ws not in ctx.only:
             continue
-        acc, st, tr = bfs(ctx, ws, depth, fake_pool)
-        ctx.add_family(ws, acc, states=st, depth=depth)
+        d_ws = depth + DEPTH_BONUS.get(ws, 0)
+        acc, st, tr = bfs(ctx, ws, d_ws, fake_pool)
+        ctx.add_family(ws, acc, states=st, depth=d_ws)
         states += st
         trans += tr
     ctx.states, ctx.transitions = states, trans
